@@ -256,13 +256,20 @@ class EvalNode(ConfigScalar(str)):
                 # offset from bytes to instructions
                 old_loc_rel //= 2
 
+            # since python 3.10 a relative jump counts from the instruction following the jump (and, since 3.11, its inline caches)
+            base = 0
+            if python_is_at_least(3, 10):
+                base = 1
+                if python_is_at_least(3, 11):
+                    base += dis._inline_cache_entries[op]
+
             if is_backward:
-                old_loc_abs = old_jump_loc - old_loc_rel
+                old_loc_abs = old_jump_loc + base - old_loc_rel
             else:
-                old_loc_abs = old_loc_rel + old_jump_loc
+                old_loc_abs = old_loc_rel + old_jump_loc + base
 
             new_loc_abs = location_map[old_loc_abs]
-            new_loc_rel = abs(new_loc_abs - new_jump_loc)
+            new_loc_rel = abs(new_loc_abs - (new_jump_loc + base))
             if not python_is_at_least(3, 10):
                 new_loc_rel *= 2
 
